@@ -110,6 +110,21 @@ func (c *recReader) Read(p []byte) (int, error) {
 	return n, nil
 }
 
+type failingReader struct {
+	recs      [][]byte
+	pos       int
+	failAfter int
+}
+
+func (c *failingReader) Read(p []byte) (int, error) {
+	if c.pos >= c.failAfter {
+		return 0, fmt.Errorf("injected stream failure")
+	}
+	n := copy(p, c.recs[c.pos])
+	c.pos++
+	return n, nil
+}
+
 // synthetic: sizes (in units) and threshold (in units) from TLC; unit bytes chosen by the driver
 func rsSynthetic(tr *tracer.T, sizes []int, th int, rng *rand.Rand) {
 	tr.Emit(map[string]any{"ev": "reset"})
@@ -146,6 +161,19 @@ func rsSynthetic(tr *tracer.T, sizes []int, th int, rng *rand.Rand) {
 	rr.recs = append(rr.recs, fin)
 	if pairs == nil {
 		pairs = []m.KV{}
+	}
+	if rng.Intn(3) == 0 {
+		// an earlier restore attempt breaks off after it has already proposed batches of OTHER content;
+		// nothing of it may survive the retry
+		stale := &failingReader{failAfter: 4}
+		for i := 0; i < 6; i++ {
+			v := make([]byte, 3*unit)
+			b, _ := (&regattapb.Command{Table: []byte("t"), Type: regattapb.Command_PUT, Kv: &regattapb.KeyValue{Key: []byte(fmt.Sprintf("stale-%d", i)), Value: v}}).MarshalVT()
+			stale.recs = append(stale.recs, b)
+		}
+		if err := e.mgr.Restore("t", stale); err == nil {
+			die("the broken stream was restored without error")
+		}
 	}
 	tr.Emit(map[string]any{"ev": "stream", "pairs": pairs, "li": li, "maxinmem": maxInMem, "sizes": sizes, "unit": unit})
 	err := e.mgr.Restore("t", rr)
@@ -223,7 +251,8 @@ func rsPointInTime(tr *tracer.T, rng *rand.Rand, maxInMem uint64) {
 			del := lr.Intn(5) == 0
 			rev, err := put(k, v, del)
 			if err != nil {
-				continue
+				// an unacknowledged write may or may not have happened: the history is no longer known exactly
+				die("source write failed, behaviour inconclusive: %v", err)
 			}
 			mu.Lock()
 			writes = append(writes, wr{rev, k, v, del})
